@@ -2,6 +2,7 @@ import CppUModel.Proofs.JUnitLoop
 import CppUModel.Proofs.JUnitBehaviours
 import CppUModel.Proofs.JUnitRead
 import CppUModel.Proofs.JUnitRepeat
+import CppUModel.Proofs.JUnitTimes
 /-!
 # C16 — the JUnit report is well-formed XML and faithful to the run
 
@@ -149,6 +150,73 @@ theorem run_never_crashes (package timeString : Bytes) (flt : Option Filter) (te
   have h := (loop_keys flt tests true 0 {} { package := package, timeString := timeString } rfl (fun _ => rfl)).2
   simpa [runAll, stFrom_cons, step] using h
 
+/-! ## the `time` attributes (`%d.%03d` of `ms / 1000`, `ms % 1000`) -/
+
+/-- The `time` attribute of every test case element is the time the test took (the clock's advance while it
+    ran; 0 for an ignored test), as whole seconds printed through `(int)` and a three-digit millisecond part —
+    over all files of the run, in run order, for every registry, filter and package. -/
+theorem case_times_are_test_times (package timeString : Bytes) (flt : Option Filter) (tests : List Script) :
+    (reports package timeString (runAll flt tests)).flatMap (fun r => r.2.cases.map caseTime) =
+      (tests.filter fun t => shouldRun flt t.info).map scriptTime := by
+  have h := loop_proj caseTime nodeTime scriptTime caseTime_caseOf nodeTime_scriptNode flt tests true 0 {}
+    { package := package, timeString := timeString } rfl (fun _ => rfl)
+  simpa [reports, runAll, reportsFrom_cons, reportsOf, step] using h
+
+/-- The `time` attribute of every suite element is the time of its group: the sum of the times of the tests of
+    that group that were executed (filtered-out and ignored tests take none). -/
+theorem suite_times_are_group_times (package timeString : Bytes) (flt : Option Filter) (tests : List Script) :
+    (reports package timeString (runAll flt tests)).map (fun r => suiteTime r.2) =
+      (groupRuns tests).map (fun run => timeOfMs (ticksIn flt run)) := by
+  have h := loop_group_times flt tests true 0 {} { package := package, timeString := timeString } rfl (by intro h; cases h)
+  have hadd : ∀ l : List Nat, addToHead 0 l = l := by intro l; cases l <;> simp [addToHead]
+  simpa [reports, runAll, reportsFrom_cons, reportsOf, step, hadd, List.map_map, Function.comp_def] using h
+
+/-- below 2^31 seconds the printed seconds are the true seconds (above, the `(int)` cast wraps: `castInt`) -/
+theorem time_is_exact_below_wrap (ms : Nat) (h : ms / 1000 < 2147483648) :
+    timeOfMs ms = (((ms / 1000 : Nat) : Int), ms % 1000) ∧ ms % 1000 < 1000 := by
+  refine ⟨?_, Nat.mod_lt _ (by decide)⟩
+  simp only [timeOfMs, castInt_small _ h]
+
+/-! ## the writer and collector functions as regenerated from the source (`Gen/JUnitTemplates.lean`) -/
+
+/-- OBLIGATION over the regenerated statement lists of `writeXmlHeader`, `writeTestSuiteSummary`, `writeProperties`,
+    `writeTestCases`, `writeFailure`, `writeFileEnding` and the regenerated order of the writer calls of
+    `writeTestGroupToFile`: for EVERY collector state, what is written between `openFileForWrite` and
+    `closeFile` is the rendering of the structured report — every literal of every format string, every
+    conversion paired with its argument, every text field through `encodeXmlText`.  `document_shape` and
+    everything after it rest on this. -/
+theorem writer_templates_render_the_report (s : St) : fileBytes s = (suiteOf s).render := fileBytes_renders s
+
+/-- … and one iteration of the loop of `writeTestCases` writes the rendering of one test case, whatever the
+    running check-count offset. -/
+theorem testcase_template_renders_the_case (s : St) (total : Nat) (n : Node) :
+    testCase s total n = (caseOf s.package s.group total n).render := testCase_renders s total n
+
+/-- all regenerated statement lists of the writer -/
+def allTemplates : List (List Tpl.Item) :=
+  [Gen.JUnitTemplates.xmlHeader, Gen.JUnitTemplates.suiteSummary, Gen.JUnitTemplates.properties, Gen.JUnitTemplates.caseOpen,
+   Gen.JUnitTemplates.caseSkipped, Gen.JUnitTemplates.caseClose, Gen.JUnitTemplates.failureElem, Gen.JUnitTemplates.fileEnding]
+
+/-- OBLIGATION (syntactic, on the regenerated lists): no writer prints a text field as it is — every `%s` of a
+    name, path, message or captured text is an `encodeXmlText(..)`; the only raw `%s` is the platform's time string. -/
+theorem every_text_field_is_encoded : allTemplates.all (fun t => t.all Tpl.Item.encodesText) = true := by decide
+
+/-- OBLIGATION: the writer calls of `writeTestGroupToFile` come in document order. -/
+theorem writer_calls_in_document_order :
+    Gen.JUnitTemplates.groupFile = [.xmlHeader, .suiteSummary, .properties, .testCases, .fileEnding] := by decide
+
+/-- OBLIGATION over the regenerated `resetTestGroupResult`: the counts, the group name and the node list are cleared
+    and nothing else is (the captured output and the check-count offset survive: `captured_output_accumulates`). -/
+theorem reset_clears_exactly (s : St) :
+    reset s = { s with testCount := 0, failureCount := 0, group := [], nodesRev := [] } := reset_eq s
+
+/-- OBLIGATION over the regenerated `printCurrentGroupEnded`: the group time is taken first, the file is written from
+    the un-reset collector, the reset comes last. -/
+theorem group_end_takes_time_writes_then_resets (s : St) (ms : Nat) :
+    groupEnded s ms = (onGroupEnded s ms, [writeGroup { s with groupExecTime := ms }]) := groupEnded_eq s ms
+
+example : (allTemplates.map List.length).sum > 40 := by decide
+
 /-! ## file names -/
 
 /-- Obligation over the regenerated tables: forbidden set, replacement and literal pieces are those
@@ -294,40 +362,36 @@ theorem reports_are_reportOf : ∀ (evs : List Ev) (s : St), ∀ r ∈ reportsFr
         · exact ⟨_, List.mem_singleton.mp hr⟩
     · exact reports_are_reportOf es _ r hr
 
-/-- The statement formerly left open, now proved: on every run of the registry the reader accepts
-    every report and returns it. -/
-def report_reader_roundtrip_full : Prop :=
-  ∀ (package timeString : Bytes) (flt : Option Filter) (tests : List Script),
-    plain timeString →
-    ∀ r ∈ reports package timeString (runAll flt tests), parseReport r.2.render = .ok r.2
+/-- the time string of every report is the one the collector was created with -/
+theorem reports_timestamp : ∀ (evs : List Ev) (s : St), ∀ r ∈ reportsFrom s evs, r.2.timestamp = s.timeString := by
+  intro evs
+  induction evs with
+  | nil => intro s r hr; simp [reportsFrom_nil] at hr
+  | cons e es ih =>
+    intro s r hr
+    rw [reportsFrom_cons, List.mem_append] at hr
+    rcases hr with hr | hr
+    · cases e <;> simp only [reportsOf, List.not_mem_nil] at hr
+      case groupEnded ms =>
+        split at hr
+        · simp at hr
+        · rw [List.mem_singleton.mp hr]; rfl
+    · have := ih _ r hr
+      rw [this]
+      unfold step
+      split
+      · rfl
+      · cases e <;> simp [onTestStarted, onFailure, onTestEnded, onGroupEnded, reset_eq] <;>
+          (first | rfl | (split <;> (first | rfl | (split <;> rfl))))
 
-theorem report_reader_roundtrip_on_runs : report_reader_roundtrip_full := by
-  intro package timeString flt tests hts r hr
+/-- Whenever the test case elements of the reports of an event list are those of scripted tests (same keys),
+    the reader accepts every report and returns it. -/
+theorem roundtrip_of_keys (package timeString : Bytes) (evs : List Ev) (scs : List Script) (hts : plain timeString)
+    (hkeys : (reports package timeString evs).flatMap reportKeys = scs.map scriptKey) :
+    ∀ r ∈ reports package timeString evs, parseReport r.2.render = .ok r.2 := by
+  intro r hr
   obtain ⟨s', hs'⟩ := reports_are_reportOf _ _ r hr
-  have hkeys := one_testcase_per_test_in_order package timeString flt tests
-  have htsr : r.2.timestamp = timeString := by
-    -- the time string never changes
-    have : ∀ (evs : List Ev) (s : St), ∀ r ∈ reportsFrom s evs, r.2.timestamp = s.timeString := by
-      intro evs
-      induction evs with
-      | nil => intro s r hr; simp [reportsFrom_nil] at hr
-      | cons e es ih =>
-        intro s r hr
-        rw [reportsFrom_cons, List.mem_append] at hr
-        rcases hr with hr | hr
-        · cases e <;> simp only [reportsOf, List.not_mem_nil] at hr
-          case groupEnded ms =>
-            split at hr
-            · simp at hr
-            · rw [List.mem_singleton.mp hr]; rfl
-        · have := ih _ r hr
-          rw [this]
-          unfold step
-          split
-          · rfl
-          · cases e <;> simp [onTestStarted, onFailure, onTestEnded, onGroupEnded, reset] <;>
-              (first | rfl | (split <;> (first | rfl | (split <;> rfl))))
-    exact this _ _ r hr
+  have htsr : r.2.timestamp = timeString := reports_timestamp _ _ r hr
   apply parseReport_render
   · refine ⟨?_, ?_⟩
     · rw [hs']; simp only [reportOf, suiteOf]; exact Nat.mod_lt _ (by decide)
@@ -335,7 +399,7 @@ theorem report_reader_roundtrip_on_runs : report_reader_roundtrip_full := by
       refine ⟨?_, ?_⟩
       · rw [hs'] at hc; exact casesOf_millis _ _ _ _ c hc
       · intro hf
-        have hk : caseKey c ∈ (reports package timeString (runAll flt tests)).flatMap reportKeys :=
+        have hk : caseKey c ∈ (reports package timeString evs).flatMap reportKeys :=
           List.mem_flatMap.mpr ⟨r, hr, List.mem_map.mpr ⟨c, hc, rfl⟩⟩
         rw [hkeys] at hk
         obtain ⟨sc, _, hsc⟩ := List.mem_map.mp hk
@@ -344,6 +408,44 @@ theorem report_reader_roundtrip_on_runs : report_reader_roundtrip_full := by
         · rw [hw] at hsc; rw [← hsc.2.2.2.2] at hf; simp at hf
         · rw [hw] at hsc; rw [← hsc.2.2.2.1]; rfl
   · rw [htsr]; exact hts
+
+/-- The statement formerly left open, now proved: on every run of the registry the reader accepts
+    every report and returns it. -/
+def report_reader_roundtrip_full : Prop :=
+  ∀ (package timeString : Bytes) (flt : Option Filter) (tests : List Script),
+    plain timeString →
+    ∀ r ∈ reports package timeString (runAll flt tests), parseReport r.2.render = .ok r.2
+
+theorem report_reader_roundtrip_on_runs : report_reader_roundtrip_full := by
+  intro package timeString flt tests hts
+  exact roundtrip_of_keys package timeString _ _ hts (one_testcase_per_test_in_order package timeString flt tests)
+
+/-- … and on every REPEATED run (`-r<n>` on one output object: the state the collector carries from one repetition
+    into the next — captured output, check-count offset — never makes a report unreadable). -/
+theorem report_reader_roundtrip_on_repeated_runs (package timeString : Bytes) (n : Nat) (flt : Option Filter)
+    (tests : List Script) (hts : plain timeString) :
+    ∀ r ∈ reports package timeString (runRepeated n flt tests), parseReport r.2.render = .ok r.2 := by
+  apply roundtrip_of_keys package timeString _
+    ((List.range n).flatMap fun _ => tests.filter fun t => shouldRun flt t.info) hts
+  rw [one_testcase_per_test_in_order_repeated, List.map_flatMap]
+
+theorem map_parse_of_roundtrip (rs : List (Bytes × Suite)) (hr : ∀ r ∈ rs, parseReport r.2.render = .ok r.2) :
+    (rs.map fun r => ({ name := r.1, bytes := r.2.render } : File)).map (fun f => parseReport f.bytes) =
+      rs.map (fun r => (Except.ok r.2 : Except String Suite)) := by
+  induction rs with
+  | nil => rfl
+  | cons r rs ih =>
+    simp only [List.map_cons]
+    rw [hr r (List.mem_cons_self ..), ih (fun x hx => hr x (List.mem_cons_of_mem _ hx))]
+
+/-- Whole repeated run, on the bytes: every file of every repetition is accepted by the reader, which returns the
+    structured report it was written from. -/
+theorem files_are_read_back_repeated (package timeString : Bytes) (n : Nat) (flt : Option Filter) (tests : List Script)
+    (hts : plain timeString) :
+    (files package timeString (runRepeated n flt tests)).map (fun f => parseReport f.bytes) =
+      (reports package timeString (runRepeated n flt tests)).map (fun r => (Except.ok r.2 : Except String Suite)) := by
+  rw [document_shape]
+  exact map_parse_of_roundtrip _ (report_reader_roundtrip_on_repeated_runs package timeString n flt tests hts)
 
 /-- Corollary on the bytes: every file of a run is accepted by the reader, which returns the
     structured report the file was written from (`document_shape` + the reader = the original fields). -/
@@ -393,6 +495,12 @@ example : scanAttr none (encodeXmlText (lit "a\"b<c>&d\n") ++ 34 :: lit " next")
   decide
 
 example : (groupRuns demo).map List.length = [2, 1] := by decide
+
+example : (demo.map scriptTime) = [(1, 234), (0, 0), (0, 0)] := by decide
+example : (groupRuns demo).map (fun run => timeOfMs (ticksIn none run)) = [(1, 234), (0, 0)] := by decide
+example : timeOfMs 2147483648000 = (-2147483648, 0) := by decide
+example : (files (lit "p") (lit "T") (runRepeated 2 none demo)).map (·.name) =
+    [lit "cpputest_p_gr_p_1_.xml", lit "cpputest_p_G2.xml", lit "cpputest_p_gr_p_1_.xml", lit "cpputest_p_G2.xml"] := by decide
 
 example : decodeXml (encodeXmlText (lit "a<b>&\"c\"\r\n&amp;")) = lit "a<b>&\"c\"\r\n&amp;" := by decide
 example : encodeXmlText (lit "<&>") = lit "&lt;&amp;&gt;" := by decide
